@@ -397,19 +397,19 @@ fn int_apply(ctx: &mut Ctx, v: &mut IntVector, m: &mut IntModel, op: &IntOp, his
             run!("int.pack!panic", v.pack());
             if let Some(mx) = m.items.iter().max() { m.width = naive_bit_len(*mx); }
         },
-        IntOp::ExtendU8(xs) => { run!("int.extend!panic", v.extend(xs.iter().copied())); for x in xs { m.items.push(trunc(*x as u64, m.width)); } },
-        IntOp::ExtendU16(xs) => { run!("int.extend!panic", v.extend(xs.iter().copied())); for x in xs { m.items.push(trunc(*x as u64, m.width)); } },
-        IntOp::ExtendU32(xs) => { run!("int.extend!panic", v.extend(xs.iter().copied())); for x in xs { m.items.push(trunc(*x as u64, m.width)); } },
-        IntOp::ExtendU64(xs) => { run!("int.extend!panic", v.extend(xs.iter().copied())); for x in xs { m.items.push(trunc(*x, m.width)); } },
-        IntOp::ExtendUsize(xs) => { run!("int.extend!panic", v.extend(xs.iter().copied())); for x in xs { m.items.push(trunc(*x as u64, m.width)); } },
+        IntOp::ExtendU8(xs) => { run!("int.extend!panic", v.extend(crate::gen::hinted(xs, xs.len() + m.items.len()))); for x in xs { m.items.push(trunc(*x as u64, m.width)); } },
+        IntOp::ExtendU16(xs) => { run!("int.extend!panic", v.extend(crate::gen::hinted(xs, xs.len() + m.items.len()))); for x in xs { m.items.push(trunc(*x as u64, m.width)); } },
+        IntOp::ExtendU32(xs) => { run!("int.extend!panic", v.extend(crate::gen::hinted(xs, xs.len() + m.items.len()))); for x in xs { m.items.push(trunc(*x as u64, m.width)); } },
+        IntOp::ExtendU64(xs) => { run!("int.extend!panic", v.extend(crate::gen::hinted(xs, xs.len() + m.items.len()))); for x in xs { m.items.push(trunc(*x, m.width)); } },
+        IntOp::ExtendUsize(xs) => { run!("int.extend!panic", v.extend(crate::gen::hinted(xs, xs.len() + m.items.len()))); for x in xs { m.items.push(trunc(*x as u64, m.width)); } },
         IntOp::FromVec(t, xs) | IntOp::FromIter(t, xs) => {
             let from_vec = matches!(op, IntOp::FromVec(_, _));
             let (nv, w) = match t {
-                0 => { let s: Vec<u8> = xs.iter().map(|x| *x as u8).collect(); (run!("int.from!panic", if from_vec { IntVector::from(s.clone()) } else { IntVector::from_iter(s.iter().copied()) }), 8) },
-                1 => { let s: Vec<u16> = xs.iter().map(|x| *x as u16).collect(); (run!("int.from!panic", if from_vec { IntVector::from(s.clone()) } else { IntVector::from_iter(s.iter().copied()) }), 16) },
-                2 => { let s: Vec<u32> = xs.iter().map(|x| *x as u32).collect(); (run!("int.from!panic", if from_vec { IntVector::from(s.clone()) } else { IntVector::from_iter(s.iter().copied()) }), 32) },
-                3 => { let s: Vec<u64> = xs.clone(); (run!("int.from!panic", if from_vec { IntVector::from(s.clone()) } else { IntVector::from_iter(s.iter().copied()) }), 64) },
-                _ => { let s: Vec<usize> = xs.iter().map(|x| *x as usize).collect(); (run!("int.from!panic", if from_vec { IntVector::from(s.clone()) } else { IntVector::from_iter(s.iter().copied()) }), 64) },
+                0 => { let s: Vec<u8> = xs.iter().map(|x| *x as u8).collect(); (run!("int.from!panic", if from_vec { IntVector::from(s.clone()) } else { IntVector::from_iter(crate::gen::hinted(&s, s.len() + 1)) }), 8) },
+                1 => { let s: Vec<u16> = xs.iter().map(|x| *x as u16).collect(); (run!("int.from!panic", if from_vec { IntVector::from(s.clone()) } else { IntVector::from_iter(crate::gen::hinted(&s, s.len() + 1)) }), 16) },
+                2 => { let s: Vec<u32> = xs.iter().map(|x| *x as u32).collect(); (run!("int.from!panic", if from_vec { IntVector::from(s.clone()) } else { IntVector::from_iter(crate::gen::hinted(&s, s.len() + 1)) }), 32) },
+                3 => { let s: Vec<u64> = xs.clone(); (run!("int.from!panic", if from_vec { IntVector::from(s.clone()) } else { IntVector::from_iter(crate::gen::hinted(&s, s.len() + 1)) }), 64) },
+                _ => { let s: Vec<usize> = xs.iter().map(|x| *x as usize).collect(); (run!("int.from!panic", if from_vec { IntVector::from(s.clone()) } else { IntVector::from_iter(crate::gen::hinted(&s, s.len() + 1)) }), 64) },
             };
             *v = nv;
             m.width = w;
